@@ -285,7 +285,11 @@ func (e *Engine) allowedPkg(path string) bool {
 		return true
 	case "strconv":
 		return true
-	case "strings", "bytes", "encoding/xml":
+	case "strings", "bytes", "encoding/xml", "io/fs":
+		return true
+	case "os":
+		// only the FileInfo accessors of os.fileStat run for real; everything else in
+		// package os is modelled (osmodels.go) or unsupported
 		return true
 	}
 	return false
